@@ -60,21 +60,21 @@ type interpreter struct {
 
 	runtimeErrorT types.Type
 
-	funcsSeen map[*ssa.Function]int64 // function -> instructions executed (evidence)
-	depth     int
-	stubSeen  map[string]bool
-	shared     *sharedSet
-	inSync     int
-	curFn      *ssa.Function
-	setupCache map[string]value
-	noSummary  map[*ssa.Function]bool
-	pure      map[*ssa.Function]bool
-	fnInfos   map[*ssa.Function]*fnInfo
+	funcsSeen     map[*ssa.Function]int64 // function -> instructions executed (evidence)
+	depth         int
+	stubSeen      map[string]bool
+	shared        *sharedSet
+	inSync        int
+	curFn         *ssa.Function
+	setupCache    map[string]value
+	noSummary     map[*ssa.Function]bool
+	pure          map[*ssa.Function]bool
+	fnInfos       map[*ssa.Function]*fnInfo
 	regionsMerged int64
-	noMerge   bool
-	lockDepth int
-	clock     int64
-	strCellOf map[*value]string
+	noMerge       bool
+	lockDepth     int
+	clock         int64
+	strCellOf     map[*value]string
 }
 
 type strCell struct {
@@ -128,12 +128,12 @@ type frame struct {
 func (fr *frame) curInstrAbs() int { return fr.phiCount + fr.curInstr }
 
 // control-flow signals that must never be intercepted by target defers/recover
-type pathEnd struct{ reason string }   // path is infeasible or finished early (Assume false)
+type pathEnd struct{ reason string }     // path is infeasible or finished early (Assume false)
 type unsupportedErr struct{ msg string } // construct outside the engine
 type boundErr struct{ msg string }       // budget exceeded
 
-func unsupported(msg string) unsupportedErr   { return unsupportedErr{msg} }
-func boundExceeded(msg string) boundErr        { return boundErr{msg} }
+func unsupported(msg string) unsupportedErr { return unsupportedErr{msg} }
+func boundExceeded(msg string) boundErr     { return boundErr{msg} }
 func isControl(p any) bool {
 	switch p.(type) {
 	case pathEnd, unsupportedErr, boundErr, localFail:
